@@ -124,19 +124,20 @@ type runStat struct {
 }
 
 type world struct {
-	p     preset
-	rng   *rand.Rand
-	db    *muxdb.MuxDB
-	st    *state.State
-	block uint32
-	fc    *thor.ForkConfig
-	vals  []thor.Address
-	ends  []thor.Address
-	names map[thor.Address]string
-	endOf map[thor.Address]thor.Address // endorser used when the validation was added (driver's memory, for choosing)
-	ndel  int
-	evs   []trace.Ev
-	stat  runStat
+	p      preset
+	rng    *rand.Rand
+	db     *muxdb.MuxDB
+	st     *state.State
+	block  uint32
+	fc     *thor.ForkConfig
+	vals   []thor.Address
+	ends   []thor.Address
+	names  map[thor.Address]string       // validator ids
+	enames map[thor.Address]string       // endorser / beneficiary accounts
+	endOf  map[thor.Address]thor.Address // endorser used when the validation was added (driver's memory, for choosing)
+	ndel   int
+	evs    []trace.Ev
+	stat   runStat
 	// previous observation, for statistics
 	prevStatus   map[thor.Address]uint8
 	prevExitB    map[thor.Address]bool
@@ -147,13 +148,14 @@ type world struct {
 func addrOf(s string) thor.Address { return thor.BytesToAddress([]byte(s)) }
 
 func newWorld(p preset, seed int64, nVal, nEnd int, mbp uint64, hist int, mode string) *world {
-	w := &world{p: p, rng: rand.New(rand.NewSource(seed)), names: map[thor.Address]string{}, endOf: map[thor.Address]thor.Address{},
+	w := &world{p: p, rng: rand.New(rand.NewSource(seed)), names: map[thor.Address]string{}, enames: map[thor.Address]string{}, endOf: map[thor.Address]thor.Address{},
 		prevStatus: map[thor.Address]uint8{}, prevExitB: map[thor.Address]bool{}}
 	w.db = muxdb.NewMem()
 	w.st = state.New(w.db, trie.Root{})
 	w.fc = &thor.ForkConfig{HAYABUSA: p.Hayabusa}
 	w.block = p.Hayabusa
 	w.names[thor.Address{}] = zeroName
+	w.enames[thor.Address{}] = zeroName
 	for i := 1; i <= nVal; i++ {
 		a := addrOf(fmt.Sprintf("validator-%d-%d", seed, i))
 		w.vals = append(w.vals, a)
@@ -162,7 +164,7 @@ func newWorld(p preset, seed int64, nVal, nEnd int, mbp uint64, hist int, mode s
 	for i := 1; i <= nEnd; i++ {
 		a := addrOf(fmt.Sprintf("endorser-%d-%d", seed, i))
 		w.ends = append(w.ends, a)
-		w.names[a] = fmt.Sprintf("e%d", i)
+		w.enames[a] = fmt.Sprintf("e%d", i)
 	}
 	// the contracts exist (code), as after genesis
 	must(w.st.SetCode(builtin.Staker.Address, builtin.Staker.RuntimeBytecodes()))
@@ -189,6 +191,20 @@ func (w *world) namep(a *thor.Address) string {
 		return zeroName
 	}
 	return w.name(*a)
+}
+
+func (w *world) ename(a thor.Address) string {
+	if n, ok := w.enames[a]; ok {
+		return n
+	}
+	return "?" + a.String()
+}
+
+func (w *world) enamep(a *thor.Address) string {
+	if a == nil {
+		return zeroName
+	}
+	return w.ename(*a)
 }
 
 func (w *world) stk() *staker.Staker { return builtin.Staker.Native(w.st) }
@@ -261,6 +277,7 @@ type result struct {
 	ok  bool
 	msg string
 	amt uint64
+	bad bool // an error or panic of the real code (not a revert)
 }
 
 // call runs one public operation as a transaction would: checkpoint, (credit), native call, (debit), roll back on failure.
@@ -269,7 +286,7 @@ func (w *world) call(credit uint64, pays bool, fn func(s *staker.Staker) (uint64
 	defer func() {
 		if rec := recover(); rec != nil {
 			w.st.RevertTo(cp)
-			r = result{ok: false, msg: fmt.Sprintf("!panic: %v", rec)}
+			r = result{ok: false, msg: fmt.Sprintf("!panic: %v", rec), bad: true}
 			w.stat.Errors++
 		}
 	}()
@@ -289,13 +306,13 @@ func (w *world) call(credit uint64, pays bool, fn func(s *staker.Staker) (uint64
 			return result{ok: false, msg: m}
 		}
 		w.stat.Errors++
-		return result{ok: false, msg: "!error: " + err.Error()}
+		return result{ok: false, msg: "!error: " + err.Error(), bad: true}
 	}
 	if pays {
 		if amt%w.p.Unit != 0 {
 			w.st.RevertTo(cp)
 			w.stat.Errors++
-			return result{ok: false, msg: fmt.Sprintf("!error: withdraw returned %d VET, not a multiple of the unit", amt)}
+			return result{ok: false, msg: fmt.Sprintf("!error: withdraw returned %d VET, not a multiple of the unit", amt), bad: true}
 		}
 		w.moveVET(amt/w.p.Unit, false)
 		return result{ok: true, amt: amt / w.p.Unit}
@@ -313,6 +330,9 @@ func (w *world) emitRes(e trace.Ev, r result) {
 	e["ok"] = r.ok
 	e["msg"] = r.msg
 	e["amt"] = r.amt
+	if r.bad {
+		e["bad"] = true
+	}
 	w.emit(e)
 }
 
@@ -340,10 +360,24 @@ func optBlock(b *uint32) int64 {
 	return int64(*b)
 }
 
-func (w *world) snapshot() map[string]any {
+// getterErr is an error (or panic) of the real code while the state is read through the getters: an observation
+type getterErr struct{ msg string }
+
+func chk(err error) {
+	if err != nil {
+		panic(getterErr{err.Error()})
+	}
+}
+
+func (w *world) snapshot() (post map[string]any) {
 	defer func() {
 		if rec := recover(); rec != nil {
-			fail("panic while reading the state through the getters:", rec)
+			msg := fmt.Sprintf("!panic: %v", rec)
+			if ge, ok := rec.(getterErr); ok {
+				msg = "!error: " + ge.msg
+			}
+			w.stat.Errors++
+			post = map[string]any{"block": w.block, "getterError": msg}
 		}
 	}()
 	s := w.stk()
@@ -353,64 +387,64 @@ func (w *world) snapshot() map[string]any {
 	ag := aggregation.New(sctx)
 	ds := delegation.New(sctx)
 	vs := validation.New(sctx, staker.MinStakeVET, staker.MaxStakeVET)
-	post := map[string]any{"block": w.block}
+	post = map[string]any{"block": w.block}
 
 	mbp, err := builtin.Params.Native(w.st).Get(thor.KeyMaxBlockProposers)
-	must(err)
+	chk(err)
 	post["mbp"] = mbp.Uint64()
 
 	lv, lw, err := s.LockedStake()
-	must(err)
+	chk(err)
 	qu, err := s.QueuedStake()
-	must(err)
+	chk(err)
 	wd, err := gs.GetWithdrawableStake()
-	must(err)
+	chk(err)
 	cd, err := gs.GetCooldownStake()
-	must(err)
+	chk(err)
 	post["g"] = map[string]any{"lv": w.units(lv), "lw": w.wunits(lw), "qu": w.units(qu), "wd": w.units(wd), "cd": w.units(cd)}
 
 	slot, err := w.st.GetStorage(addr, thor.Bytes32{})
-	must(err)
+	chk(err)
 	post["eff"] = w.weiUnits(new(big.Int).SetBytes(slot.Bytes()))
 	bal, err := w.st.GetBalance(addr)
-	must(err)
+	chk(err)
 	post["bal"] = w.weiUnits(bal)
 	active, err := s.IsPoSActive()
-	must(err)
+	chk(err)
 	post["active"] = active
 
 	fuel := len(w.vals) + 2
 	walk := func(first func() (thor.Address, error)) ([]string, bool) {
 		seq := []string{}
 		cur, err := first()
-		must(err)
+		chk(err)
 		for n := 0; !cur.IsZero(); n++ {
 			if n >= fuel {
 				return seq, false
 			}
 			seq = append(seq, w.name(cur))
 			cur, err = s.Next(cur)
-			must(err)
+			chk(err)
 		}
 		return seq, true
 	}
 	an, qn, err := s.GetValidationsNum()
-	must(err)
+	chk(err)
 	aseq, aok := walk(s.FirstActive)
 	qseq, qok := walk(s.FirstQueued)
 	ah, err := s.FirstActive()
-	must(err)
+	chk(err)
 	qh, err := s.FirstQueued()
-	must(err)
+	chk(err)
 	post["aL"] = map[string]any{"head": w.name(ah), "size": an, "seq": aseq, "acyclic": aok}
 	post["qL"] = map[string]any{"head": w.name(qh), "size": qn, "seq": qseq, "acyclic": qok}
 
 	lg := []any{}
 	if aok {
 		leaders, err := s.LeaderGroup()
-		must(err)
+		chk(err)
 		for _, l := range leaders {
-			lg = append(lg, map[string]any{"a": w.name(l.Address), "end": w.name(l.Endorser), "ben": w.namep(l.Beneficiary),
+			lg = append(lg, map[string]any{"a": w.name(l.Address), "end": w.ename(l.Endorser), "ben": w.enamep(l.Beneficiary),
 				"on": l.Active, "wt": w.wunits(l.Weight)})
 		}
 	}
@@ -421,7 +455,7 @@ func (w *world) snapshot() map[string]any {
 	nActive := 0
 	for _, a := range w.vals {
 		v, err := s.GetValidation(a)
-		must(err)
+		chk(err)
 		n := w.name(a)
 		if v == nil {
 			vm[n] = map[string]any{"st": "none", "end": zeroName, "ben": zeroName, "per": 0, "comp": 0, "start": 0, "exitB": -1, "offB": -1,
@@ -430,15 +464,15 @@ func (w *world) snapshot() map[string]any {
 			w.prevStatus[a] = validation.StatusUnknown
 		} else {
 			wdr, err := s.GetWithdrawable(a, w.block)
-			must(err)
+			chk(err)
 			tot := []int64{-9, -9, -9, -9, -9}
 			if t, err := s.GetValidationTotals(a); err == nil {
 				tot = []int64{w.units(t.TotalLockedStake), w.wunits(t.TotalLockedWeight), w.units(t.TotalQueuedStake),
 					w.units(t.TotalExitingStake), w.wunits(t.NextPeriodWeight)}
 			}
 			hd, err := s.HasDelegations(a)
-			must(err)
-			vm[n] = map[string]any{"st": statusName(v.Status), "end": w.name(v.Endorser), "ben": w.namep(v.Beneficiary), "per": v.Period,
+			chk(err)
+			vm[n] = map[string]any{"st": statusName(v.Status), "end": w.ename(v.Endorser), "ben": w.enamep(v.Beneficiary), "per": v.Period,
 				"comp": v.CompletedPeriods, "start": v.StartBlock, "exitB": optBlock(v.ExitBlock), "offB": optBlock(v.OfflineBlock),
 				"lk": w.units(v.LockedVET), "pu": w.units(v.PendingUnlockVET), "qu": w.units(v.QueuedVET), "cd": w.units(v.CooldownVET),
 				"wd": w.units(v.WithdrawableVET), "wt": w.wunits(v.Weight), "prev": w.namep(v.Prev), "next": w.namep(v.Next),
@@ -460,7 +494,7 @@ func (w *world) snapshot() map[string]any {
 			w.prevExitB[a] = v.ExitBlock != nil
 		}
 		g, err := ag.GetAggregation(a)
-		must(err)
+		chk(err)
 		am[n] = map[string]any{"lv": w.units(g.Locked.VET), "lw": w.wunits(g.Locked.Weight), "pv": w.units(g.Pending.VET),
 			"pw": w.wunits(g.Pending.Weight), "ev": w.units(g.Exiting.VET), "ew": w.wunits(g.Exiting.Weight)}
 	}
@@ -480,7 +514,7 @@ func (w *world) snapshot() map[string]any {
 	dl := []any{}
 	for id := 1; id <= w.ndel; id++ {
 		d, v, err := s.GetDelegation(big.NewInt(int64(id)))
-		must(err)
+		chk(err)
 		if d == nil {
 			dl = append(dl, map[string]any{"v": zeroName, "stake": -9, "mult": 0, "first": 0, "last": -1, "started": false, "ended": false, "locked": false})
 			continue
@@ -498,8 +532,23 @@ func (w *world) snapshot() map[string]any {
 	post["del"] = dl
 	// no delegation beyond the counter
 	extra, err := ds.GetDelegation(big.NewInt(int64(w.ndel + 1)))
-	must(err)
+	chk(err)
 	post["delExtra"] = extra != nil
+
+	// internal projection (not an observable of the properties): the renewal list, read from its storage slots
+	{
+		rh := solidity.NewRaw[thor.Address](sctx, thor.BytesToBytes32([]byte("validations-renewal-head")))
+		rn := solidity.NewMapping[thor.Address, thor.Address](sctx, thor.BytesToBytes32([]byte("validations-renewal-next")))
+		seq := []string{}
+		cur, err := rh.Get()
+		for n := 0; err == nil && !cur.IsZero() && n < fuel; n++ {
+			seq = append(seq, w.name(cur))
+			cur, err = rn.Get(cur)
+		}
+		if err == nil && cur.IsZero() {
+			post["ren"] = seq
+		}
+	}
 
 	// the exit-block map over the horizon in which an exit can be scheduled
 	ex := []any{}
@@ -507,7 +556,7 @@ func (w *world) snapshot() map[string]any {
 	horizon := w.block + w.p.HighP + w.p.E*uint32(len(w.vals)+w.p.ExitMaxTry+2)
 	for b := first; b <= horizon; b += w.p.E {
 		x, err := vs.GetValidatorForExitBlock(b)
-		must(err)
+		chk(err)
 		if !x.IsZero() {
 			ex = append(ex, []any{b, w.name(x)})
 		}
@@ -521,7 +570,21 @@ func (w *world) snapshot() map[string]any {
 // ---------------------------------------------------------------------------------------------------------------------
 // the operations
 
+// tooRich keeps the totals of a history with unit = 1 VET inside TLC's 32-bit integers: a deposit that would lift the
+// contract balance above 700M VET is not attempted (amounts above the maximum stake revert anyway and are let through).
+func (w *world) tooRich(amount uint64) bool {
+	if w.p.WScale != 100 || amount > w.p.MaxStake {
+		return false
+	}
+	bal, err := w.st.GetBalance(builtin.Staker.Address)
+	must(err)
+	return w.weiUnits(bal)+int64(amount) > 700_000_000
+}
+
 func (w *world) opAddValidation(a, e thor.Address, period uint32, stake uint64) result {
+	if w.tooRich(stake) {
+		return result{}
+	}
 	r := w.call(stake, false, func(s *staker.Staker) (uint64, error) {
 		return 0, s.AddValidation(a, e, period, stake*w.p.Unit)
 	})
@@ -529,25 +592,28 @@ func (w *world) opAddValidation(a, e thor.Address, period uint32, stake uint64) 
 		w.endOf[a] = e
 		w.stat.Validations++
 	}
-	w.emitRes(trace.Ev{"e": "AddValidation", "a": w.name(a), "end": w.name(e), "p": period, "s": stake}, r)
+	w.emitRes(trace.Ev{"e": "AddValidation", "a": w.name(a), "end": w.ename(e), "p": period, "s": stake}, r)
 	return r
 }
 
 func (w *world) opIncreaseStake(a, e thor.Address, amt uint64) result {
+	if w.tooRich(amt) {
+		return result{}
+	}
 	r := w.call(amt, false, func(s *staker.Staker) (uint64, error) { return 0, s.IncreaseStake(a, e, amt*w.p.Unit) })
-	w.emitRes(trace.Ev{"e": "IncreaseStake", "a": w.name(a), "end": w.name(e), "s": amt}, r)
+	w.emitRes(trace.Ev{"e": "IncreaseStake", "a": w.name(a), "end": w.ename(e), "s": amt}, r)
 	return r
 }
 
 func (w *world) opDecreaseStake(a, e thor.Address, amt uint64) result {
 	r := w.call(0, false, func(s *staker.Staker) (uint64, error) { return 0, s.DecreaseStake(a, e, amt*w.p.Unit) })
-	w.emitRes(trace.Ev{"e": "DecreaseStake", "a": w.name(a), "end": w.name(e), "s": amt}, r)
+	w.emitRes(trace.Ev{"e": "DecreaseStake", "a": w.name(a), "end": w.ename(e), "s": amt}, r)
 	return r
 }
 
 func (w *world) opSignalExit(a, e thor.Address) result {
 	r := w.call(0, false, func(s *staker.Staker) (uint64, error) { return 0, s.SignalExit(a, e, w.block) })
-	w.emitRes(trace.Ev{"e": "SignalExit", "a": w.name(a), "end": w.name(e)}, r)
+	w.emitRes(trace.Ev{"e": "SignalExit", "a": w.name(a), "end": w.ename(e)}, r)
 	return r
 }
 
@@ -560,17 +626,20 @@ func (w *world) opWithdrawStake(a, e thor.Address) result {
 			w.stat.ZeroWithdraw++
 		}
 	}
-	w.emitRes(trace.Ev{"e": "WithdrawStake", "a": w.name(a), "end": w.name(e)}, r)
+	w.emitRes(trace.Ev{"e": "WithdrawStake", "a": w.name(a), "end": w.ename(e)}, r)
 	return r
 }
 
 func (w *world) opSetBeneficiary(a, e, b thor.Address) result {
 	r := w.call(0, false, func(s *staker.Staker) (uint64, error) { return 0, s.SetBeneficiary(a, e, b) })
-	w.emitRes(trace.Ev{"e": "SetBeneficiary", "a": w.name(a), "end": w.name(e), "ben": w.name(b)}, r)
+	w.emitRes(trace.Ev{"e": "SetBeneficiary", "a": w.name(a), "end": w.ename(e), "ben": w.ename(b)}, r)
 	return r
 }
 
 func (w *world) opAddDelegation(a thor.Address, stake uint64, mult uint8) result {
+	if w.tooRich(stake) {
+		return result{}
+	}
 	r := w.call(stake, false, func(s *staker.Staker) (uint64, error) {
 		id, err := s.AddDelegation(a, stake*w.p.Unit, mult, w.block)
 		if err != nil {
@@ -644,14 +713,14 @@ func (w *world) nextBlock() {
 		defer func() {
 			if rec := recover(); rec != nil {
 				w.st.RevertTo(cp)
-				ev["ok"], ev["msg"], ev["act"], ev["upd"] = false, fmt.Sprintf("!panic: %v", rec), false, false
+				ev["ok"], ev["msg"], ev["act"], ev["upd"], ev["bad"] = false, fmt.Sprintf("!panic: %v", rec), false, false, true
 				w.stat.Errors++
 			}
 		}()
 		status, err := w.stk().SyncPOS(w.fc, w.block)
 		if err != nil {
 			w.st.RevertTo(cp)
-			ev["ok"], ev["msg"], ev["act"], ev["upd"] = false, "!error: "+err.Error(), false, false
+			ev["ok"], ev["msg"], ev["act"], ev["upd"], ev["bad"] = false, "!error: "+err.Error(), false, false, true
 			w.stat.Errors++
 			return
 		}
@@ -677,7 +746,9 @@ func (w *world) valsWith(status ...uint8) []thor.Address {
 	s := w.stk()
 	for _, a := range w.vals {
 		v, err := s.GetValidation(a)
-		must(err)
+		if err != nil {
+			continue
+		}
 		st := validation.StatusUnknown
 		if v != nil {
 			st = v.Status
@@ -743,6 +814,23 @@ func (w *world) mult() uint8 {
 	return ms[w.pick(len(ms))]
 }
 
+// liveDelegation prefers a delegation that still holds stake (and, for a signal, has not signalled yet)
+func (w *world) liveDelegation(forSignal bool) int {
+	if w.chance(75) {
+		var c []int
+		for id := 1; id <= w.ndel; id++ {
+			d, _, err := w.stk().GetDelegation(big.NewInt(int64(id)))
+			if err == nil && d != nil && d.Stake > 0 && (!forSignal || d.LastIteration == nil) {
+				c = append(c, id)
+			}
+		}
+		if len(c) > 0 {
+			return c[w.pick(len(c))]
+		}
+	}
+	return 1 + w.pick(w.ndel)
+}
+
 func (w *world) randomOp() {
 	small := w.p.MaxStake/24 + 1 // about one minimum stake
 	if w.p.WScale == 100 {
@@ -794,6 +882,17 @@ func (w *world) randomOp() {
 		}},
 		{6, func() {
 			a := w.target(validation.StatusExit, validation.StatusActive, validation.StatusQueued, validation.StatusExit)
+			if w.chance(65) { // somebody who has something to withdraw
+				var c []thor.Address
+				for _, x := range w.vals {
+					if amt, err := w.stk().GetWithdrawable(x, w.block); err == nil && amt > 0 {
+						c = append(c, x)
+					}
+				}
+				if len(c) > 0 {
+					a = c[w.pick(len(c))]
+				}
+			}
 			e := w.endorserFor(a)
 			r := w.opWithdrawStake(a, e)
 			if r.ok && w.chance(50) {
@@ -817,7 +916,7 @@ func (w *world) randomOp() {
 				w.opSignalDelegationExit(1)
 				return
 			}
-			id := 1 + w.pick(w.ndel)
+			id := w.liveDelegation(true)
 			if w.chance(3) {
 				id = w.ndel + 1
 			}
@@ -828,7 +927,7 @@ func (w *world) randomOp() {
 				w.opWithdrawDelegation(0)
 				return
 			}
-			id := 1 + w.pick(w.ndel)
+			id := w.liveDelegation(false)
 			if w.chance(3) {
 				id = w.ndel + 1
 			}
@@ -854,7 +953,9 @@ func (w *world) randomOp() {
 
 func (w *world) onlineUpdates() {
 	leaders, err := w.stk().LeaderGroup()
-	must(err)
+	if err != nil || len(leaders) > len(w.vals) {
+		return
+	}
 	for _, l := range leaders {
 		if l.Active && w.chance(5) {
 			w.opSetOnline(l.Address, false)
@@ -903,14 +1004,10 @@ func runF4(p preset, seed int64, hist int) *world {
 	w.opAddDelegation(v1, 1, 200)
 	active := func() bool {
 		ok, err := w.stk().IsPoSActive()
-		must(err)
-		return ok
+		return err == nil && ok
 	}
 	for i := 0; i < int(4*p.E+2*p.TP+8) && !active(); i++ {
 		w.nextBlock()
-	}
-	if !active() {
-		fail("f4: proof of stake did not start")
 	}
 	w.opSignalExit(v1, e)
 	for i := 0; i < int(p.LowP+4*p.E) && active(); i++ {
@@ -984,7 +1081,7 @@ func main() {
 	runs := flag.Int("runs", 10, "number of random histories")
 	blocks := flag.Int("blocks", 60, "blocks per random history")
 	cfg := flag.String("cfg", "e2", "configuration preset: "+strings.Join(presetNames(), ","))
-	mode := flag.String("mode", "random", "random | f4 | edges (comma list; scripted histories come first)")
+	mode := flag.String("mode", "random", "random | f4 | edges | chain (comma list)")
 	flag.Parse()
 	p, ok := presets[*cfg]
 	if !ok {
@@ -1015,6 +1112,10 @@ func main() {
 		case "random":
 			for i := 0; i < *runs; i++ {
 				add(runRandom(p, *seed*1000003+int64(i), hist, *blocks))
+			}
+		case "chain":
+			for i := 0; i < *runs; i++ {
+				add(runChain(p, *seed*1000003+int64(i), hist, *blocks))
 			}
 		default:
 			fail("unknown mode", m)
